@@ -15,6 +15,7 @@ Reading guide
 * doubles are their 64-bit patterns; "equal" is equality of patterns (Python's `==` is false on NaN).
 -/
 import PsdVerif.Lemmas.Descriptor3
+import PsdVerif.Lemmas.Descriptor4
 import PsdVerif.Lemmas.CodecPsd1
 
 namespace PsdVerif.C01Descriptor
@@ -64,6 +65,27 @@ theorem descriptor_enc_rejects (tb : Tables) (v : DVal) (e : Err) (h : enc tb v 
   split at h
   · cases h
   · cases h; rfl
+
+/-- the reader's recursion through `TYPES` is modelled on fuel; `dec` supplies enough of it for every stream:
+from a cursor inside the stream it never reports `recursionError` (the model's "out of fuel") — on any bytes,
+well-formed or not -/
+theorem dec_never_out_of_fuel (tb : Tables) (t : Tag) (d : B) (p : Nat) (hp : p ≤ d.length) :
+    dec tb t d p ≠ .error .recursionError := by
+  have h := good_dec tb d t p (Nat.zero_le _) hp
+  unfold OkAt at h
+  unfold dec
+  intro he
+  rw [he] at h
+  exact h rfl
+
+/-- whatever the reader accepts, the cursor moved forward and stayed inside the stream -/
+theorem dec_cursor_bounds (tb : Tables) (t : Tag) (d : B) (p : Nat) (hp : p ≤ d.length) (v : DVal) (p' : Nat)
+    (h : dec tb t d p = .ok (v, p')) : p ≤ p' ∧ p' ≤ d.length := by
+  have hg := good_dec tb d t p (Nat.zero_le _) hp
+  unfold OkAt at hg
+  unfold dec at h
+  rw [h] at hg
+  exact hg
 
 /-! ### the block wrappers -/
 
